@@ -531,8 +531,22 @@ pub struct SimStream {
     pub w: Shared,
 }
 
+/// Injected transport errors are what a socket would hand out: errors carrying the OS error
+/// code (ECONNRESET, EPIPE, ECONNABORTED, ETIMEDOUT, EHOSTUNREACH, EINTR, EAGAIN), not errors
+/// made up from an ErrorKind -- code that looks at `raw_os_error()` sees the real thing.
 fn io_err(k: IoKind) -> io::Error {
-    io::Error::new(k.to_std(), "injected fault")
+    let code = match k {
+        IoKind::ConnectionReset => libc::ECONNRESET,
+        IoKind::BrokenPipe => libc::EPIPE,
+        IoKind::ConnectionAborted => libc::ECONNABORTED,
+        IoKind::TimedOut => libc::ETIMEDOUT,
+        IoKind::Other => libc::EHOSTUNREACH,
+        IoKind::Interrupted => libc::EINTR,
+        IoKind::WouldBlock => libc::EAGAIN,
+    };
+    let e = io::Error::from_raw_os_error(code);
+    debug_assert!(k == IoKind::Other || e.kind() == k.to_std());
+    e
 }
 
 impl Read for SimStream {
